@@ -23,7 +23,8 @@ TwinRestart == /\ st = "drift" /\ ~bfresh
                /\ bnerr' = 0 /\ bcurr' = 0 /\ bdmean' = 0 /\ bdstd' = 0 /\ bmaxnum' = 0
                /\ bfresh' = TRUE /\ off' = total
                /\ UNCHANGED <<eddmvars, hs, errs>>
-Next == Update \/ TwinRestart
+UReset == /\ st # "drift" /\ total > 0 /\ Reset /\ B!Reset /\ hs' = <<>> /\ errs' = 0 /\ UNCHANGED <<bfresh, off>>
+Next == Update \/ TwinRestart \/ UReset
 Spec == Init /\ [][Next]_vars
 Bound == TLCGet("level") <= Depth
 
